@@ -31,6 +31,12 @@ CANARIES = [
     ("m-c13-refit-on-replay", "C13", "transforms/scale.py", "    if _state[\"center\"] is not None:\n        data = data - _state[\"center\"]", "    if _state[\"center\"] is not None:\n        data = data - (_state[\"center\"] if data.shape[0] < 40 else numpy.mean(data, axis=0))"),
     ("m-c09-enforce-rename", "C09", "materializers/base.py", "                {col: scoped_cols[col] for col in target_cols},", "                {col: scoped_cols[col] for col in (target_cols if len(target_cols) < 4 else sorted(target_cols))},"),
     ("m-c06-forward-overrides", "C06", "model_spec.py", "                data, context=context, drop_rows=drop_rows\n            )\n        return cast(\n            \"ModelMatrix\",", "                data, context=context\n            )\n        return cast(\n            \"ModelMatrix\","),
+    ("m-c01-plus-swapped", "C01", "parser/parser.py", "to_terms=lambda lhs, rhs: lhs | rhs,", "to_terms=lambda lhs, rhs: rhs | lhs,"),
+    ("m-c01-in-args", "C01", "parser/parser.py", "to_terms=lambda nested, parents: nested_product_expansion(\n                    parents, nested\n                ),", "to_terms=lambda nested, parents: nested_product_expansion(\n                    nested, parents\n                ),"),
+    ("m-c01-colon-drops-last", "C01", "parser/parser.py", "                    for term in itertools.product(*term_sets)\n                ),\n            ),\n            Operator(\n                \"**\"", "                    for term in list(itertools.product(*term_sets))[: 64]\n                ),\n            ),\n            Operator(\n                \"**\""),
+    ("m-c16-sub-right-only", "C16", "utils/constraints.py", "                negate_terms({term for term in terms_right if term not in added})", "                {term for term in terms_right if term not in added}"),
+    ("m-c16-mul-scalar", "C16", "utils/constraints.py", "                    term_right.factor, scale=term_left.scale * term_right.scale", "                    term_right.factor, scale=term_left.scale + term_right.scale"),
+    ("m-c11-base-falsy", "C11", "transforms/contrasts.py", "    def _find_base_index(self, levels: Sequence[Hashable]) -> int:\n        if self.base is UNSET:\n            return 0", "    def _find_base_index(self, levels: Sequence[Hashable]) -> int:\n        if not self.base:\n            return 0"),
     ("m-c06-raise-inverted", "C06", "materializers/base.py", "                if null_indices:\n                    raise ValueError(f\"`{name}` contains null", "                if not null_indices:\n                    raise ValueError(f\"`{name}` contains null"),
     ("m-c06-drop-skipped", "C06", "materializers/base.py", "                drop_rows.update(null_indices)", "                drop_rows.update(i for i in null_indices if i % 7 != 6)"),
 ]
